@@ -936,10 +936,20 @@ def traverse_post(*a):
 
 def jigg_roles(I, f):
     """closure variables of traverse by role: the word counter (the one declared nonlocal), self, and the <ccg> element the spans are appended to (the remaining one)"""
+    import ast
     names, nonlocals = closure_names(I, f)
-    counter = the_one(nonlocals, 'the word counter (nonlocal)', 'traverse')
-    element = the_one(names - nonlocals - {'self'}, 'the <ccg> element', 'traverse')
-    return dict(counter=counter, element=element)
+    if nonlocals:
+        counter = the_one(nonlocals, 'the word counter (nonlocal)', 'traverse')
+    else:
+        # the counter as an iterator (itertools.count()): the closure variable handed to next()
+        nexts = {n.args[0].id for n in ast.walk(f.node) if isinstance(n, ast.Call) and isinstance(n.func, ast.Name) and n.func.id == 'next' and n.args and isinstance(n.args[0], ast.Name)}
+        counter = the_one(nexts & names, 'the word counter (nonlocal int, or an iterator handed to next())', 'traverse')
+    element = the_one(names - {counter} - {'self'}, 'the <ccg> element', 'traverse')
+    return dict(counter=counter, element=element, iterator=not nonlocals)
+
+
+def _counter_get(I, v):
+    return v.k if isinstance(v, SymCounter) else I.ex(v)
 
 
 class JiggTraverse(Contract):
@@ -971,7 +981,7 @@ class JiggTraverse(Contract):
             env = self._env
             env.set('self', obj)
             env.set(self._roles['element'], res)
-            env.set(self._roles['counter'], Z(c0))
+            env.set(self._roles['counter'], SymCounter(c0) if self._roles['iterator'] else Z(c0))
             env.set('etree', I.modules['lxml.etree'])
             self._pre = (t, obj, res, p0, c0, m0, res.arr)
             unfold_span_rec(I, t)
@@ -987,7 +997,7 @@ class JiggTraverse(Contract):
         if ids is None:
             return z3.BoolVal(False)
         arr1, side = res.final_arr(I)
-        counter1 = I.ex(self._env.lookup(self._roles['counter']))
+        counter1 = _counter_get(I, self._env.lookup(self._roles['counter']))
         return [('attribute-shapes', z3.And(side, ids[0] == _JG['sid']))] + \
             traverse_clauses(I, t, p0, c0, m0, arr0, arr1, res.n, I.ex(obj.attrs['_spid']), counter1, (ids[1], I.ex(result[1])))
 
@@ -1002,12 +1012,16 @@ class JiggTraverse(Contract):
         obj, res = env.lookup('self'), env.lookup(roles['element'])
         if not isinstance(res, SymSpanList):
             raise CheckerError('traverse called while the <ccg> element is not the span list')
-        p0, c0, m0, arr0 = I.ex(obj.attrs['_spid']), I.ex(env.lookup(roles['counter'])), res.n, res.arr
+        cv = env.lookup(roles['counter'])
+        p0, c0, m0, arr0 = I.ex(obj.attrs['_spid']), _counter_get(I, cv), res.n, res.arr
         arr1 = I.fresh('spans', SPARR)
         idn, start = I.fresh('span_id', I_), I.fresh('span_start', I_)
         res.arr, res.n = arr1, m0 + nnodes(t)
         obj.attrs['_spid'] = Z(p0 + nnodes(t))
-        env.set(roles['counter'], Z(c0 + nleaves(t)))
+        if isinstance(cv, SymCounter):
+            cv.k = c0 + nleaves(t)
+        else:
+            env.set(roles['counter'], Z(c0 + nleaves(t)))
         I.ctx.assume(traverse_post(I, t, p0, c0, m0, arr0, arr1, res.n, p0 + nnodes(t), c0 + nleaves(t), (idn, start)))
         return (FString(['s', SymIntStr(Z(_JG['sid'])), '_sp', SymIntStr(Z(idn))]), Z(start))
 
@@ -1309,24 +1323,38 @@ class JsonCategory(Contract):
 
 
 class JsonRec(Contract):
-    rel, qualname = 'depccg/printer/my_json.py', 'json_of.rec'
+    rel, role = 'depccg/printer/my_json.py', 'json_of.rec'
+
+    def __init__(self):
+        # nested in json_of (the flag `full` is a closure variable) or a module-level function json_of calls (the flag is its second parameter): found by role
+        self.qualname = find_recursive_helper(self.rel, 'json_of', 'json_of.rec')
+        self.nested = '.' in self.qualname
 
     def closure_env(self, I, f):
         m = I.load_module('depccg.printer.my_json')
         env = Env(m.env)
-        env.set('rec', f)
+        env.set(f.node.name, f)
         self._env = env
         return env
+
+    def _flag_args(self, I):
+        f = I.find_function(self.rel, self.qualname)
+        extra = len(f.node.args.args) - 1
+        if extra not in (0, 1):
+            raise CheckerError(f'{self.qualname}: expected (node) or (node, full)')
+        return [False] * extra
 
     def cases(self, I):
         def build(I):
             t = z3.Const('node', T)
             self._t = t
-            self._env.set('full', False)            # json_of(tree) as to_string calls it; the branch full=True raises AttributeError on every tree (Atom.features does not exist)
+            if self.nested:
+                for name in closure_names(I, I.find_function(self.rel, self.qualname))[0]:
+                    self._env.set(name, False)      # json_of(tree) as to_string calls it; the branch full=True raises AttributeError on every tree (Atom.features does not exist)
             m = I.load_module('depccg.printer.my_json')
             m.env.vars['dict'] = _Method(lambda I_, args, kwargs, node: TokenDict(args[0].tag) if len(args) == 1 and isinstance(args[0], SymToken) else dict(*args, **kwargs))
             I.ctx.assume(enc_json(I)(t) == _JS['body'](t))
-            return [SymTree(t)], {}, [], None
+            return [SymTree(t)] + self._flag_args(I), {}, [], None
         yield Case('any-node', build)
 
     def post(self, I, case, args, result):
@@ -1348,8 +1376,8 @@ class JsonRec(Contract):
         return [('record-shape', z3.BoolVal(True)), ('record', term == enc_json(I)(t))]
 
     def apply(self, I, args, kwargs, node):
-        if len(args) != 1 or not isinstance(args[0], SymTree):
-            raise CheckerError('rec called with something that is not a tree view')
+        if len(args) not in (1, 2) or not isinstance(args[0], SymTree) or kwargs or (len(args) == 2 and args[1] is not False):
+            raise CheckerError('the json helper is called with something other than (tree view[, full=False])')
         return JsonTerm(enc_json(I)(args[0].e))
 
 
